@@ -38,7 +38,25 @@ func familyFor(p *Property, e *LedgerEntry) string {
 	switch p.ID {
 	case "C01":
 		return "valid"
-	case "C02", "C08":
+	case "C08":
+		// the composite check: the oracle of the function whose obligation failed
+		fn := e.Fn
+		switch {
+		case strings.Contains(fn, "alueFast"):
+			return "skipfast"
+		case strings.Contains(fn, "andleArray") || strings.Contains(fn, "andleObject"):
+			return "trav"
+		case strings.Contains(fn, "Float") || strings.HasPrefix(fn, "fp."):
+			return "float"
+		case strings.Contains(fn, "ReadInt") || strings.Contains(fn, "ReadUint"):
+			return "readint"
+		case strings.Contains(fn, "String") || fn == "getu4" || fn == "unescapeUnicodeChar":
+			return "strtok"
+		case strings.Contains(fn, "Null") || strings.Contains(fn, "Bool"):
+			return "token"
+		}
+		return "skip"
+	case "C02":
 		return "skip"
 	case "C11":
 		return "skipfast"
@@ -87,6 +105,11 @@ func replayFnFor(family string, e *LedgerEntry) string {
 		return "readers"
 	case "float":
 		return "ReadFloat64"
+	case "readint":
+		if strings.HasPrefix(fn, "Read") {
+			return fn
+		}
+		return "ReadInt64"
 	}
 	return fn
 }
